@@ -94,6 +94,13 @@ def run(st, tier, seed):
     bundles += exb
     compile_check.run_bundles(st, res, bundles, "C02", "system", must_accept=True)
     res.programs = len(bundles)
+    # the same wiring in the other emitted specification (.des back-end): ports tied to their signals with the right orientation
+    if st.driver_ok:
+        from props import c03
+        vs, ndes = c03.des_wiring_violations(core.Driver(), bundles, "C02", limit=60 if tier == "quick" else 1200)
+        res.count("des-back-end", ndes)
+        res.evaluations += ndes
+        res.violations += vs
     # directed: `../` imports (outside the model, whose paths have no `..`): judged by a second spelling of the same program
     import impl
     for k in range(6 if tier == "quick" else 150):
